@@ -95,12 +95,12 @@ def scanToEq : Nat → List Char → Nat → Except Err Nat
     | none => .error .indexError
     | some c => if c = '=' then .ok e else scanToEq f raw (e + 1)
 
-/-- `while raw[end] in {' ', '\n', '\t'}: end += 1` -/
+/-- `while end < len(raw) and raw[end] in {' ', '\n', '\t'}: end += 1` (stops at the end of the text) -/
 def scanBlank : Nat → List Char → Nat → Except Err Nat
-  | 0, _, _ => .error .indexError
+  | 0, _, e => .ok e
   | f + 1, raw, e =>
     match raw[e]? with
-    | none => .error .indexError
+    | none => .ok e
     | some c => if c = ' ' || c = '\n' || c = '\t' then scanBlank f raw (e + 1) else .ok e
 
 /-- `start = offsets[lineno - 1] + colno` -/
@@ -167,7 +167,10 @@ def applyWork (offsets : List Nat) : List Work → List Char → Except Err (Lis
   | [], raw => .ok raw
   | w :: ws, raw =>
     match w.action with
-    | .add => applyWork offsets ws (raw ++ w.str ++ ['\n'])
+    | .add =>
+      -- `if raw and not raw.endswith('\n'): raw += '\n'` — the new statements start on a line of their own
+      let raw := if !raw.isEmpty && raw.getLast? != some '\n' then raw ++ ['\n'] else raw
+      applyWork offsets ws (raw ++ w.str ++ ['\n'])
     | a => do
       let raw' ← removeNode offsets raw a w.span w.kind w.str
       applyWork offsets ws raw'
